@@ -989,32 +989,21 @@ type sbData struct {
 
 // returns true if we set Block to blank 0 or some solid label
 func (b *Block) setBlank(octants [8]*Block) bool {
-	var ok bool
+	// A nil octant was not touched by the mutation: the receiver's current voxels there must be
+	// kept (as DownresSlow does), so the shortcut only applies when all eight octants are given.
 	var lbl uint64
-	if octants[0] == nil {
-		ok = true // nil octants are solid label 0 block
-	} else if len(octants[0].Labels) == 1 {
-		lbl = octants[0].Labels[0]
-		ok = true
-	}
-	if ok {
-		for i := 1; i < 8; i++ {
-			if octants[i] == nil {
-				if lbl != 0 {
-					ok = false
-					break
-				}
-			} else if len(octants[i].Labels) != 1 || lbl != octants[i].Labels[0] {
-				ok = false
-				break
-			}
+	for i := 0; i < 8; i++ {
+		if octants[i] == nil || len(octants[i].Labels) != 1 {
+			return false
 		}
-		if ok {
-			*b = *MakeSolidBlock(lbl, b.Size)
-			return true
+		if i == 0 {
+			lbl = octants[0].Labels[0]
+		} else if lbl != octants[i].Labels[0] {
+			return false
 		}
 	}
-	return false
+	*b = *MakeSolidBlock(lbl, b.Size)
+	return true
 }
 
 // DownresSlow is same as Downres() but uses simpler and more memory/compute-intensive
